@@ -345,6 +345,10 @@ class Interp:
         key = v.t.get_id()
         if key in self.ctx.known_ctor:
             return self.ctx.known_ctor[key][1]
+        nt = self.ctx.nz(v.t)
+        if ctor_of(nt):
+            v.t = nt
+            return ctor_of(nt)
         A = self.A(v)
         cands = candidates or list(A.ctor.keys())
         for cn in cands:
@@ -364,6 +368,8 @@ class Interp:
         if k == 'int':
             if f == 'name' and cn == 'Symbol':
                 return SV(t, 'name')
+            if z3.is_int_value(t) and not (f == 'var' and cn in ('ESubst', 'SSubst')):
+                return t.as_long()
             if f == 'var' and cn in ('ESubst', 'SSubst'):
                 # python: an EVar / SVar object
                 vc = 'EVar' if cn == 'ESubst' else 'SVar'
@@ -478,8 +484,13 @@ class Interp:
             if v.kind == 'idl':
                 return self.ctx.branch(z3.Not(IDL.is_('inil', v.t)))
             if v.kind == 'intset':
-                return self.ctx.branch(v.t != z3.EmptySet(Int))
+                try:
+                    return bool(concrete_intset(v.t))
+                except Unsupported:
+                    return self.ctx.branch(v.t != z3.EmptySet(Int))
             raise Unsupported(f'truth of {v.kind}')
+        if isinstance(v, SStr):
+            return bool(v.parts)
         if isinstance(v, (Obj, PyClass, PyFunc, Closure, Bound, Builtin)):
             return True
         if isinstance(v, NotImpl):
@@ -510,6 +521,14 @@ class Interp:
                 return SV(s.t == self.as_idl(c, s.meta or 'EVar'), 'bool')
             if s.kind == 'pmap' and isinstance(c, dict):
                 return SV(spec.expandmap(s.t) == spec.expandmap(self.as_pmap(c)), 'bool')
+            return False
+        if isinstance(a, SStr) or isinstance(b, SStr):
+            if isinstance(a, str):
+                a = SStr([a])
+            if isinstance(b, str):
+                b = SStr([b])
+            if isinstance(a, SStr) and isinstance(b, SStr):
+                return a.key() == b.key()
             return False
         if isinstance(a, Obj) and isinstance(b, Obj):
             return self.obj_eq(a, b)
@@ -962,6 +981,18 @@ class Interp:
             return list(it)
         if isinstance(it, _Iter):
             return it.items
+        if isinstance(it, _MapView):
+            # a map whose spine is known (pcons ... pnil) can be enumerated; a symbolic spine needs a loop contract
+            t = self.ctx.nz(it.m.t)
+            out = []
+            while ctor_of(t) == 'pcons':
+                k, v, t = t.arg(0), t.arg(1), t.arg(2)
+                kk = k.as_long() if z3.is_int_value(k) else SV(k, 'int')
+                vv = SV(v, 'ppat')
+                out.append({'items': (kk, vv), 'values': vv, 'keys': kk}[it.which])
+            if ctor_of(t) == 'pnil':
+                return out
+            raise Unsupported('iteration over a symbolic map without loop contract')
         if isinstance(it, SV) and it.kind == 'idl':
             # bounded unfolding is NOT used for proofs: symbolic-length iteration needs a loop contract
             raise Unsupported('iteration over symbolic id list without loop contract')
@@ -1070,6 +1101,8 @@ class Interp:
 
     def e_Set(self, e, env, module, fn):
         items = self.eval_elts(e.elts, env, module, fn)
+        if all(isinstance(i, int) and not isinstance(i, bool) for i in items):
+            return set(items)
         if all(isinstance(i, SV) and i.kind == 'int' or isinstance(i, int) for i in items):
             s = z3.EmptySet(Int)
             for i in items:
@@ -1102,11 +1135,17 @@ class Interp:
                 parts.append(str(v.value))
             else:
                 x = self.eval(v.value, env, module, fn)
-                if isinstance(x, (int, str)):
+                if isinstance(x, (int, str)) and not isinstance(x, bool):
                     parts.append(format(x))
+                elif isinstance(x, SV) and x.kind in ('int', 'name') and v.format_spec is None and v.conversion == -1:
+                    parts.append((x.kind, x.t))
+                elif isinstance(x, SStr):
+                    parts.append(x)
                 else:
                     return _OpaqueStr()
-        return ''.join(parts)
+        if all(isinstance(p, str) for p in parts):
+            return ''.join(parts)
+        return SStr(parts)
 
     def e_Lambda(self, e, env, module, fn):
         return Closure(e, env, module, getattr(fn, 'cls', None))
@@ -1173,6 +1212,8 @@ class Interp:
             raise Unsupported(f'symbolic binop {type(op).__name__}')
         if isinstance(l, _OpaqueStr) or isinstance(r, _OpaqueStr):
             return _OpaqueStr()
+        if (isinstance(l, SStr) or isinstance(r, SStr)) and isinstance(op, ast.Add) and isinstance(l, (str, SStr)) and isinstance(r, (str, SStr)):
+            return SStr([l, r])
         import operator
         ops = {ast.Add: operator.add, ast.Sub: operator.sub, ast.Mult: operator.mul, ast.FloorDiv: operator.floordiv,
                ast.Mod: operator.mod, ast.Pow: operator.pow, ast.BitOr: operator.or_, ast.BitAnd: operator.and_,
@@ -1269,7 +1310,7 @@ class Interp:
             ki = self.as_int(k)
             if not self.ctx.branch(spec.phas(o.t, ki), 'key present'):
                 raise SymRaise('KeyError')
-            return SV(spec.pget(o.t, ki), 'ppat')
+            return SV(self.ctx.nz(spec.pget(o.t, ki)), 'ppat')
         if isinstance(o, dict):
             if isinstance(k, SV):
                 for ek in o:
@@ -1347,7 +1388,7 @@ class Interp:
             return Bound(o.selfv, m)
         if isinstance(o, SV):
             return _SVMethod(o, name)
-        if isinstance(o, (dict, list, tuple, str, set, frozenset)):
+        if isinstance(o, (dict, list, tuple, str, set, frozenset, SStr)):
             return _SVMethod(o, name)
         if isinstance(o, _Enum):
             return o.member(name)
@@ -1596,6 +1637,46 @@ class _OpaqueStr:
         return '<str?>'
 
 
+class SStr:
+    """Symbolic string: a sequence of parts -- literal text, ('int', z3 term) = str(int), ('name', z3 term) = a symbol name,
+    ('pretty', key) = the rendering of a value, ('fmt', SStr, args) = str.format, ('op', name, ...) = any other string operation.
+    Equality is structural (two SStr are equal iff built the same way from equal parts)."""
+
+    def __init__(self, parts):
+        flat = []
+        for p in parts:
+            if isinstance(p, SStr):
+                flat.extend(p.parts)
+            elif isinstance(p, str):
+                if flat and isinstance(flat[-1], str):
+                    flat[-1] = flat[-1] + p
+                elif p:
+                    flat.append(p)
+            else:
+                flat.append(p)
+        self.parts = tuple(flat)
+
+    def key(self):
+        def k(p):
+            if isinstance(p, str):
+                return ('lit', p)
+            if p[0] in ('int', 'name'):
+                return (p[0], p[1].sexpr())
+            if p[0] == 'pretty':
+                return ('pretty', p[1])
+            if p[0] == 'fmt':
+                return ('fmt', p[1].key() if isinstance(p[1], SStr) else p[1], tuple(a.key() if isinstance(a, SStr) else a for a in p[2]))
+            return tuple(x.key() if isinstance(x, SStr) else repr(x) for x in p)
+        return tuple(k(p) for p in self.parts)
+
+    def template(self):
+        """text with every non-literal part replaced by the marker character (used to find str.format placeholders)"""
+        return ''.join(p if isinstance(p, str) else '\x00' for p in self.parts)
+
+    def __repr__(self):
+        return 'SStr' + repr(self.parts)
+
+
 class _Iter:
     def __init__(self, items):
         self.items = items
@@ -1638,6 +1719,15 @@ class _SVMethod:
 
     def call(self, it, args, kwargs):
         o, n = self.o, self.name
+        if isinstance(o, (set, frozenset)) and n == 'union':
+            if all(isinstance(a, (set, frozenset)) for a in args):
+                r = set(o)
+                for a in args:
+                    r |= a
+                return r
+            o = SV(it_as_set(it, o), 'intset')
+        if isinstance(o, (set, frozenset)) and n == 'add':
+            raise Unsupported('in-place set.add')
         if isinstance(o, SV):
             if o.kind == 'intset':
                 if n == 'union':
@@ -1691,11 +1781,24 @@ class _SVMethod:
                 if it.truth(it.eq(x, args[0])):
                     return i
             raise SymRaise('ValueError')
+        if isinstance(o, (str, SStr)) and n == 'format' and (isinstance(o, SStr) or any(isinstance(a, SStr) for a in args)):
+            if any(isinstance(a, _OpaqueStr) for a in args):
+                return _OpaqueStr()
+            return SStr([('fmt', o, tuple(args))])
+        if isinstance(o, SStr):
+            return SStr([('op', n, o) + tuple(args)])
         if isinstance(o, str):
             if n == 'format':
                 return _OpaqueStr() if any(not isinstance(a, (str, int)) for a in args) else o.format(*args)
             if n in ('join',):
                 xs = it.iterate(args[0])
+                if any(isinstance(a, SStr) for a in xs) and all(isinstance(a, (str, SStr)) for a in xs):
+                    parts = []
+                    for i, a in enumerate(xs):
+                        if i:
+                            parts.append(o)
+                        parts.append(a)
+                    return SStr(parts)
                 return _OpaqueStr() if any(not isinstance(a, str) for a in xs) else o.join(xs)
             return getattr(o, n)(*args)
         raise Unsupported(f'method {n} on {type(o).__name__}')
@@ -1743,6 +1846,8 @@ def _b_list(it, args, kw):
 
 def _b_set(it, args, kw):
     items = it.iterate(args[0]) if args else []
+    if all(isinstance(i, int) and not isinstance(i, bool) for i in items):
+        return set(items)
     if all((isinstance(i, SV) and i.kind == 'int') or isinstance(i, int) for i in items):
         return SV(it_as_set(it, items), 'intset')
     raise Unsupported('set() of non-int items')
@@ -1827,10 +1932,35 @@ def _b_str(it, args, kw):
     v = args[0] if args else ''
     if isinstance(v, (int, str)):
         return str(v)
+    if isinstance(v, SV) and v.kind in ('int', 'name'):
+        return SStr([(v.kind, v.t)])
+    if isinstance(v, SStr):
+        return v
     return _OpaqueStr()
 
 
+def concrete_intset(t, bound=64):
+    """members of a set term built from concrete integers (EmptySet / SetAdd / SetUnion), by evaluation"""
+    out = set()
+    for i in range(-1, bound):
+        m = z3.simplify(z3.IsMember(z3.IntVal(i), t))
+        if z3.is_true(m):
+            out.add(i)
+        elif not z3.is_false(m):
+            raise Unsupported('set is not concrete')
+    return out
+
+
 def _b_max(it, args, kw):
+    if len(args) == 1 and isinstance(args[0], (set, frozenset)):
+        if not args[0]:
+            raise SymRaise('ValueError', 'max() of empty set')
+        return max(args[0])
+    if len(args) == 1 and isinstance(args[0], SV) and args[0].kind == 'intset':
+        s = concrete_intset(args[0].t)
+        if not s:
+            raise SymRaise('ValueError', 'max() of empty set')
+        return max(s)
     xs = it.iterate(args[0]) if len(args) == 1 else args
     if any(isinstance(x, SV) for x in xs):
         raise Unsupported('symbolic max')
@@ -1877,6 +2007,7 @@ EXTERNALS = {
     'frozendict.frozendict': Builtin('frozendict', _b_frozendict),
     'dataclasses.dataclass': Builtin('dataclass', _b_id('dataclass')),
     'typing.TYPE_CHECKING': False,
+    'functools.cache': Builtin('cache', lambda it, a, k: a[0]),
     'typing.Any': None,
     'typing.IO': None,
     'typing.TypeVar': Builtin('TypeVar', lambda it, a, k: None),
